@@ -331,3 +331,37 @@ pub fn ks_sqrtn_d<F: Fn(f64) -> f64>(sorted: &[f64], cdf: F) -> f64 {
     }
     d * n.sqrt()
 }
+
+/// staged chi-square monitor: `f(stage_seed, n)` returns (observed counts, expected counts, degrees of freedom, scale factor applied to X2).
+/// Stage 1 passes when z < 3.5; otherwise fresh stages with 8x samples: violation at z >= 5.5, held at z < 3.5, else inconclusive after stage 3.
+pub fn chi2_staged<F>(rep: &mut Report, cell: &str, key: &str, seed: u64, n1: u64, case: Value, f: F)
+where
+    F: Fn(u64, u64) -> (Vec<u64>, Vec<f64>, f64, f64),
+{
+    let mut n = n1;
+    for stage in 1..=3u64 {
+        let (obs, exp, df, scale) = f(mix(&[seed, stage]), n);
+        let tot: u64 = obs.iter().sum();
+        rep.evaluations += tot;
+        let x = chi2(&obs, &exp) * scale;
+        let z = chi2_z(x, df);
+        let min_exp = exp.iter().cloned().fold(f64::INFINITY, f64::min);
+        rep.cells.push(json!({"cell": cell, "stage": stage, "observations": tot, "chi2": x, "df": df, "z": (z * 100.).round() / 100., "min_expected_count": min_exp, "categories_seen": obs.iter().filter(|&&c| c > 0).count()}));
+        if min_exp < 20. {
+            rep.inconclusive.push(format!("cell={} expected count {:.1} too small for a chi-square verdict", cell, min_exp));
+            return;
+        }
+        if stage == 1 && z < Z1 {
+            return;
+        }
+        if stage > 1 && z >= Z2 {
+            rep.violation(key, cell, format!("chi-square({})={:.1} (z={:.1}) over {} observations, confirmed at stage {}", df, x, z, tot, stage), case);
+            return;
+        }
+        if stage > 1 && z < Z1 {
+            return;
+        }
+        n *= 8;
+    }
+    rep.inconclusive.push(format!("cell={} chi-square stayed between thresholds", cell));
+}
